@@ -11,6 +11,7 @@ import (
 	"regexp"
 	"sort"
 	"strings"
+	"time"
 
 	"golang.org/x/tools/go/ssa"
 )
@@ -69,6 +70,8 @@ type VC struct {
 	assertBlk   []*ssa.BasicBlock
 	caseGroups  []caseGroup
 	divMemo     map[string][2]Term
+	bytes       int
+	deadline    time.Time
 }
 
 // caseGroup: mutually exclusive, exhaustive conditions (the iteration in which
@@ -146,6 +149,7 @@ func (vc *VC) define(hint, sort string, t Term) Term {
 }
 
 func (vc *VC) addAssert(a string) {
+	vc.sizeGuard(len(a))
 	vc.asserts = append(vc.asserts, a)
 	var b *ssa.BasicBlock
 	if vc.topFrame != nil {
@@ -155,7 +159,18 @@ func (vc *VC) addAssert(a string) {
 }
 
 // addAssertGlobal: pure definitions are valid on every path.
+func (vc *VC) sizeGuard(n int) {
+	vc.bytes += n
+	if !vc.deadline.IsZero() && len(vc.asserts)%256 == 0 && time.Now().After(vc.deadline) {
+		unsup("VC generation takes too long (%d assertions so far): give the callees contracts instead of inlining them", len(vc.asserts))
+	}
+	if len(vc.asserts) > 60000 || vc.bytes > 40<<20 {
+		unsup("VC too large (%d assertions, %d MB): give the callees contracts instead of inlining them", len(vc.asserts), vc.bytes>>20)
+	}
+}
+
 func (vc *VC) addAssertGlobal(a string) {
+	vc.sizeGuard(len(a))
 	vc.asserts = append(vc.asserts, a)
 	vc.assertBlk = append(vc.assertBlk, nil)
 }
@@ -809,7 +824,7 @@ func (vc *VC) pathSplits(ob *Obligation, limit int) []pathInfo {
 			saved := len(cur)
 			cur = append(cur, e)
 			if os.Getenv("GOVC_DEBUG") != "" {
-				cur = append(cur, fmt.Sprintf("true ; b%d<-b%d(%s)", b.Index, p.Index, p.Comment))
+				cur = append(cur, fmt.Sprintf("(! true :named |trace.b%d<-b%d(%s).%d|)", b.Index, p.Index, p.Comment, len(cur)))
 			}
 			for _, s := range p.Succs {
 				if s != b {
